@@ -498,6 +498,9 @@ func (f *TermFactory) IAdd(a, b *Term) *Term {
 	if b.IsConst() && b.C.Sign() == 0 {
 		return a
 	}
+	if a.ID > b.ID { // canonical order: addition is commutative
+		a, b = b, a
+	}
 	return f.intn("+", a, b)
 }
 func (f *TermFactory) ISub(a, b *Term) *Term {
@@ -531,6 +534,9 @@ func (f *TermFactory) IMul(a, b *Term) *Term {
 		if b.C.Cmp(one) == 0 {
 			return a
 		}
+	}
+	if a.ID > b.ID { // canonical order: multiplication is commutative
+		a, b = b, a
 	}
 	return f.intn("*", a, b)
 }
